@@ -732,6 +732,9 @@ func refusedReplacement(r *rep.Report, via string) {
 		map[string]interface{}{"when": map[string]interface{}{"pattern": map[string]interface{}{"q": []interface{}{"x", 1.0}}}, "action": map[string]interface{}{"code": "2"}},
 		map[string]interface{}{"when": 5.0, "action": map[string]interface{}{"code": "2"}},
 		map[string]interface{}{"when": map[string]interface{}{"pattern": map[string]interface{}{"b": 2.0}}, "action": map[string]interface{}{"code": "2"}, "expires": "yesterday"},
+		// a rule that is fine except for an expiry that cannot be read (found after the rule itself was checked)
+		map[string]interface{}{"when": map[string]interface{}{"pattern": map[string]interface{}{"b": 2.0}}, "action": map[string]interface{}{"code": "2"}, "ttl": "soon"},
+		map[string]interface{}{"when": map[string]interface{}{"pattern": map[string]interface{}{"b": 2.0}}, "action": map[string]interface{}{"code": "2"}, "ttl": map[string]interface{}{"s": 1.0}},
 	}
 	for half := 0; half < 4; half++ {
 		kind := drv.Kinds[half%2]
@@ -753,7 +756,8 @@ func refusedReplacement(r *rep.Report, via string) {
 			default:
 				t = newHTTPTarget(kind == "linear")
 			}
-			good := map[string]interface{}{"when": map[string]interface{}{"pattern": map[string]interface{}{"old": "rule"}}, "action": map[string]interface{}{"code": "'old rule fired'"}}
+			good := map[string]interface{}{"when": map[string]interface{}{"pattern": map[string]interface{}{"old": "rule"}}, "action": map[string]interface{}{"code": "'old rule fired'"}, "deleteWith": []interface{}{"anchor"}}
+			t.do(call{Via: via, State: kind, Op: "addFact", Id: "anchor", Doc: map[string]interface{}{"holds": "the rule"}})
 			if _, err := t.do(call{Via: via, State: kind, Op: "addRule", Id: "keep", Doc: good}); err != nil {
 				r.Violate("", "cannot add an ordinary rule: "+err.Error(), nil)
 				continue
@@ -783,6 +787,28 @@ func refusedReplacement(r *rep.Report, via string) {
 			}
 			if !strings.Contains(out, "old rule fired") {
 				r.Violate("", "a refused replacement of a rule was not without effect: the old rule no longer fires", wit)
+			}
+			// the rule that stayed is still the dependent it was: it goes with its anchor
+			var out2 string
+			ret4, pan4 := drv.Guard(callLimit, func() {
+				t.do(call{Via: via, State: kind, Op: "remFact", Id: "anchor"})
+				out2, _ = t.do(call{Via: via, State: kind, Op: "event", Doc: map[string]interface{}{"old": "rule"}})
+			})
+			if !ret4 || pan4 != "" {
+				r.Violate("", "removing the anchor of the rule that stayed hangs or panics: "+firstLine(pan4), wit)
+				return
+			}
+			if strings.Contains(out2, "old rule fired") {
+				wit["event_result_after_anchor_removed"] = out2
+				r.Violate("", "after a refused replacement the rule that stayed is no longer deleted with the fact it names in deleteWith", wit)
+			}
+			// and the location goes on taking writes
+			var cerr error
+			if ret3, pan3 := drv.Guard(callLimit, func() { cerr = t.canary(bi, false) }); !ret3 || pan3 != "" || cerr != nil {
+				r.Violate("", fmt.Sprintf("after a refused replacement of a rule ordinary requests to the location hang or fail (returned=%v panic=%q error=%v)", ret3, firstLine(pan3), cerr), wit)
+				if !ret3 {
+					return
+				}
 			}
 		}
 	}
